@@ -113,6 +113,50 @@ def items(repo):
         return obj
     for k in (1, 3, 4, 6, 9):
         add("recidx/%d" % k, lambda k=k: str(persistent()[k]))
+    # one long-lived DateTimeOperator with a reference point: what "ref"
+    # means is decided by the calendar active when it is asked for
+
+    def oper_ref(which):
+        # (constructing an operator selects a calendar: keep the active one)
+        def O(**kw):
+            return repo.datetimeoper.DateTimeOperator(
+                calendar_mode=repo.CALENDAR.mode, **kw)
+        key_ = (id(repo), "oper", which)
+        op = _PERSIST.get(key_)
+        if op is None:
+            op = {"epoch": lambda: O(parse_format="%s",
+                                     ref_point_str="1000000000",
+                                     utc_mode=True),
+                  "feb30": lambda: O(ref_point_str="20130230T00Z"),
+                  "zone": lambda: O(ref_point_str="2004-02-29T23:00-05:00",
+                                    utc_mode=True)}[which]()
+            _PERSIST[key_] = op
+        tp, _ = op.date_parse("ref")
+        return str(op.date_shift(tp, "P1D"))
+    for which in ("epoch", "feb30", "zone"):
+        add("operref/" + which, lambda which=which: oper_ref(which))
+
+    # an iterator asked for at the previous call and never advanced is walked
+    # now (and the next one is asked for): its points are those of the
+    # calendar active while it is walked
+    def pending_iter():
+        key_ = (id(repo), "pending-iter")
+
+        def O(**kw):
+            return repo.datetimeoper.DateTimeOperator(
+                calendar_mode=repo.CALENDAR.mode, **kw)
+        op = _PERSIST.get((id(repo), "iter-oper"))
+        if op is None:
+            op = _PERSIST[(id(repo), "iter-oper")] = O()
+        it = _PERSIST.get(key_)
+        if it is None:
+            it = op.iter_recurrence_str("R3/20200227T00Z/P2D")
+        try:
+            out = [str(p) for p in it]
+        finally:
+            _PERSIST[key_] = op.iter_recurrence_str("R3/20200227T00Z/P2D")
+        return out
+    add("operiter/pending", pending_iter)
     add("rec/daily", lambda: rec("R5/2000-02-27T00Z/P1D", 5))
     add("rec/monthly", lambda: rec("R3/2001-01-30T00Z/P1M", 3))
     add("rec/reverse", lambda: rec("R/P1W/2004-01-05T00Z", 3))
